@@ -244,6 +244,7 @@ fn session(ctx: &mut Ctx, pools: &Pools, a: &[EGen], b: &[EGen], config: Option<
         }
         Ok(msgs)
     })?;
+    o.count("transcript_messages_compared", bt_transcript.len() as u64);
     if bt_transcript.len() >= 3 {
         o.nontrivial = true;
         o.class("transcript>=3-messages");
@@ -333,6 +334,7 @@ fn primitives(ctx: &mut Ctx, file: bool, pools: &Pools, entries: &[EGen], calls:
             return Ok(());
         }
     }
+    o.count("primitive_calls_compared", calls.len() as u64);
     for (i, c) in calls.iter().enumerate() {
         let state_text = describe_all(&bt.0 .0.values().cloned().collect::<Vec<_>>());
         let state = || state_text.clone();
